@@ -22,7 +22,7 @@ from . import c12
 META: Dict[str, Any] = {
     "id": "C13",
     "level": "fault_enumeration",
-    "pools": [{"backend": "c"}, {"backend": "py"}],
+    "pools": [{"backend": "c"}, {"backend": "py"}, {"backend": "c", "optimize": 1}],
     "tiers": {
         "quick": {"runs": 120000, "chunk": 400, "wall": 60, "chunk_wall": 240},
         "thorough": {"runs": 3000000, "chunk": 500, "wall": 900, "chunk_wall": 600},
@@ -52,7 +52,7 @@ MAX_SYS_FRAMES = 24
 
 
 def pool_of(rs: int, index: int) -> int:
-    return h64("pool", rs) % 2
+    return h64("pool", rs) % 3
 
 
 # ------------------------------------------------------------------ generation
@@ -350,7 +350,8 @@ def gen(rs: int, index: int, tier: str) -> Dict[str, Any]:
                 "consume": re_.choice(["all", "all", "first"])}]
     extra = re_.choice(["text", "bus", "both", "none"])
     if extra in ("text", "both"):
-        entries.append({"ep": "text", "kind": re_.choice(["passive", "vpassive", "active"])})
+        entries.append({"ep": "text", "kind": re_.choice(["passive", "vpassive", "active"]),
+                        "portions": re_.choice([1, 1, 2, 3])})
     if extra in ("bus", "both"):
         entries.append({"ep": "bus", "kind": re_.choice(["passive", "active", "vactive"])})
     return {
@@ -519,7 +520,8 @@ def run_text_segments(trace: Dict[str, Any], ent: Dict[str, Any], frames: List[T
             lines.append((W.render_line(frames[k][0], frames[k][1], metas[k][4], t, tcfg.get("style", 0)) + eol, k))
         if b == len(frames) and lines and not tcfg.get("last_newline", True):
             lines[-1] = (lines[-1][0].rstrip("\r\n"), lines[-1][1])
-        res = W.feed_text(lines, ent["kind"], trace["monitored"], trace["tx_ids"], trace.get("padding", 0))
+        res = W.feed_text(lines, ent["kind"], trace["monitored"], trace["tx_ids"], trace.get("padding", 0),
+                          portions=int(ent.get("portions", 1)))
         total.reports += res.reports
         total.sent += res.sent
         total.fed += res.fed
